@@ -91,6 +91,7 @@ def run_model(case, ctx):
                 cfg["out_sig"] = [[[0, 0], int(rng.integers(1, 4))]]
     D = cfg["D"]
     key = {k: cfg[k] for k in ("cls", "D", "equivariant", "in_sig", "out_sig", "depth", "num_blocks", "num_conv", "num_downsamples", "activation", "norm", "preact", "bias", "torus", "N")}
+    key["mid"] = cfg.get("mid")
     sink = io.StringIO()
     viols, evals = [], 0
     requested = mlgen.sig_of(cfg["out_sig"])
